@@ -10,16 +10,22 @@ MUT = [
  ("srv-live-60", "Server/Handle.lean", "x.lastPkt + 60 > now", "x.lastPkt + 61 > now", "C04", "session liveness window 60 s -> 61 s"),
  ("srv-expire-lt", "Server/Handle.lean", "else if x.lastPkt + 60 < s.now then true", "else if x.lastPkt + 60 ≤ s.now then true", "C04", "expiry test < -> <= (exactly 60 s)"),
  ("srv-resend-5", "Server/Handle.lean", "x.outfragresent > 5", "x.outfragresent > 6", "C15", "downstream resend limit 5 -> 6"),
- ("srv-fragsize-2047", "Server/Handle.lean", "req < 2 ∨ req > 2047", "req < 2 ∨ req > 2048", "C15", "largest accepted fragment size 2047 -> 2048"),
+ ("srv-fragsize-2047", "Server/Handle.lean", "req < 2 ∨ req > 2047", "req < 2 ∨ req > 2048", "C15", "largest probed fragment size 2047 -> 2048 (EQUIVALENT: the probe encodes the size in 11 bits, the bound is dead code in C and model)"),
+ ("srv-fragsize-2", "Server/Handle.lean", "req < 2 ∨ req > 2047", "req < 3 ∨ req > 2047", "C15", "smallest probed fragment size 2 -> 3"),
  ("cli-resend-3", "Client/Tunnel.lean", "if c.outchunkresent < 3 then", "if c.outchunkresent < 4 then", "C02", "client resend limit 3 -> 4"),
  ("cli-tun-gate-2", "Client/Tunnel.lean", "decide (c.outchunkresent ≥ 2)", "decide (c.outchunkresent ≥ 3)", "C02", "tun read gate while resending 2 -> 3"),
  ("cli-60s", "Client/Tunnel.lean", "if c.lastdownstreamtime + 60 < c.now then", "if c.lastdownstreamtime + 61 < c.now then", "C02", "client give-up 60 s -> 61 s"),
  ("cli-keepalive", "Client/Tunnel.lean", "(c.lastrawping : Int) + c.selecttimeout ≤ (c.now : Int)", "(c.lastrawping : Int) + c.selecttimeout < (c.now : Int)", "C02", "raw keepalive due <= -> <"),
  ("rseq-window", "Server/Handle.lean", "def recentSeqno (our got : Int) : Bool := recentSeqnoLoop got 4 our", "def recentSeqno (our got : Int) : Bool := recentSeqnoLoop got 3 our", "C01", "server's recent-seqno window 4 -> 3"),
  ("wire-name-253", "Wire/DnsDecode.lean", "if (cstr name).length > 253 then", "if (cstr name).length > 254 then", "C12", "longest accepted query name 253 -> 254"),
- ("wire-jumps", "Wire/Read.lean", None, None, "C12", "readname jump budget (see below)"),
- ("hs-ver-retries", "Client/Handshake.lean", None, None, "C06", "handshake retry count (see below)"),
- ("codec-b32-blk", "Codec/Generic.lean", None, None, "C07", "placeholder"),
+ ("wire-jumps", "Wire/Read.lean", "readnameLoop b 10 src length", "readnameLoop b 11 src length", "C12", "readname compression-pointer budget 10 -> 11"),
+ ("hs-lazy-retries", "Client/Handshake.lean", "if s.c.running ∧ i < 5 then s.park (sendLazySwitch s.c) evs (.lazy i)", "if s.c.running ∧ i < 6 then s.park (sendLazySwitch s.c) evs (.lazy i)", "C06", "lazy-switch handshake retries 5 -> 6"),
+ ("hs-raw-retries", "Client/Handshake.lean", "if s.c.running ∧ i < 4 then s.park (sendRawUdpLogin s seed) evs (.rawLogin seed i)", "if s.c.running ∧ i < 3 then s.park (sendRawUdpLogin s seed) evs (.rawLogin seed i)", "C06", "raw login attempts 4 -> 3"),
+ ("cli-cmc-36", "Client/Tunnel.lean", "if c.datacmc + 1 ≥ 36 then 0", "if c.datacmc + 1 ≥ 37 then 0", "C08", "data CMC cycle 36 -> 37"),
+ ("cli-id-step", "Client/Tunnel.lean", "let id := (c.chunkid + 7727) % 65536", "let id := (c.chunkid + 7728) % 65536", "C02", "query id step 7727 -> 7728"),
+ ("srv-login-len", "Server/Handle.lean", "if unpacked.length ≥ 18 ∧ logindata = (unpacked.drop 1).take 16 then", "if unpacked.length ≥ 17 ∧ logindata = (unpacked.drop 1).take 16 then", "C03", "login request minimum length 18 -> 17"),
+ ("srv-userid-mask", "Server/Handle.lean", "let userid : Int := ((b1 >>> 1) &&& 15 : Nat)", "let userid : Int := ((b1 >>> 1) &&& 7 : Nat)", "C15", "user id mask of the fragsize probe 15 -> 7"),
+ ("srv-cache-wrap", "Server/Handle.lean", "let fill := if x.dcLast + 1 ≥ DNSCACHE_LEN then 0 else x.dcLast + 1", "let fill := if x.dcLast + 2 ≥ DNSCACHE_LEN then 0 else x.dcLast + 1", "C16", "answer cache ring wrap off by one"),
 ]
 
 
